@@ -7,6 +7,9 @@
 (*   req    res, st, k, fail, tot, s   one client request: result string, status code, transport    *)
 (*                                   calls made, did the request finally fail, the breaker's own   *)
 (*                                   window total and state after the request                      *)
+(* A recording made on two pools that name the same circuitBreakerPolicy (req events carry `pool`)  *)
+(* is validated pool by pool: the driver hands this module, as one trace each, the requests of one  *)
+(* pool together with all the ticks (CircuitBreakerPools.tla: one breaker per pool, one clock).      *)
 (* A request is two contract steps (Arrive; Reject or Serve): `half` marks the event as half done.  *)
 EXTENDS CircuitBreakerPool, Json, TLC, IOUtils
 
